@@ -43,14 +43,21 @@ class APLItem:
             self.address = dns.rdata.Rdata._as_ipv6_address(address)
             self.prefix = dns.rdata.Rdata._as_int(prefix, 0, 128)
         else:
-            self.address = dns.rdata.Rdata._as_bytes(address, max_length=127)
+            # Other families: the address is kept as hex digits (two per octet, at
+            # most 127 octets).
+            self.address = dns.rdata.Rdata._as_bytes(address, True, 254)
+            binascii.unhexlify(self.address)  # ValueError unless hex digits
             self.prefix = dns.rdata.Rdata._as_uint8(prefix)
 
     def __str__(self):
+        address = self.address
+        if isinstance(address, bytes):
+            # the hex digits of another family's address, not their bytes repr
+            address = address.decode()
         if self.negation:
-            return f"!{self.family}:{self.address}/{self.prefix}"
+            return f"!{self.family}:{address}/{self.prefix}"
         else:
-            return f"{self.family}:{self.address}/{self.prefix}"
+            return f"{self.family}:{address}/{self.prefix}"
 
     def to_wire(self, file):
         if self.family == 1:
